@@ -1,4 +1,4 @@
-import Rangers.Proofs.ChainStoreSafe
+import Rangers.Proofs.ChainStoreWeight
 /-!
 # Property C05 — the block store holds one hash-linked canonical chain across reorgs and crashes
 
@@ -209,30 +209,54 @@ theorem head_change_guarded (fuel : Nat) (s : St) (b : Block) (hg : ¬ Guard s b
     (addCore fuel s b).1.disk = s.disk :=
   addCore_guarded fuel s b hg
 
-/-- Full statement of the weight clause: after a crash-free delivery the new head's chain weight
-    (cumulative QN, then prove value and hash of the first block above the fork point) is not lower
-    than the old head's. Proved here in the decision form `head_change_guarded` + `inv_add`; the
-    end-to-end form needs the chain produced by the re-entry to be followed through the recursion. -/
+/-- Full statement of the weight clause: after a crash-free delivery of any block of a valid tree through
+    `AddBlockOnChain` (recursion bound at least 2: one re-entry after a reorg), the store holds a chain `c'`
+    that is not lighter than the old chain `c` in the order the property states — `WeightGE`: `c'` extends
+    `c`, or its cumulative QN is larger, or it is equal and at the fork point the first block of `c'` above
+    it is not beaten by the first block of `c` above it on (prove value, then hash). -/
 def FullStatementHeadWeight (T : Nat → Option Block) : Prop :=
-  ∀ (fuel : Nat) (s : St) (b : Block) (c c' : List Block), ValidTree T → 2 ≤ fuel → Safe s → Inv T s.disk s.mem c →
-    T b.hash = some b → Inv T (addBlock fuel s b).1.disk (addBlock fuel s b).1.mem c' →
-    ∀ hd hd', c.head? = some hd → c'.head? = some hd' → hd.totalQN ≤ hd'.totalQN
+  ∀ (fuel : Nat) (s : St) (b : Block) (c : List Block), ValidTree T → Safe s → Inv T s.disk s.mem c →
+    T b.hash = some b →
+    ∃ c', Inv T (addBlock (fuel + 2) s b).1.disk (addBlock (fuel + 2) s b).1.mem c' ∧ WeightGE c c'
 
-/-- **head_weight_monotone (partial).** The part that is a statement about one decision: a block of a
-    valid tree that extends the head never lowers the cumulative QN, and a block that does not pass the
-    guard changes nothing. -/
-theorem head_weight_monotone_partial {T : Nat → Option Block} (vt : ValidTree T) (s : St) (b : Block) (c : List Block)
-    (inv : Inv T s.disk s.mem c) (hT : T b.hash = some b) :
-    (b.pre = s.mem.latest.hash → s.mem.latest.totalQN ≤ b.totalQN) ∧
-    (¬ Guard s b → ∀ fuel, (addCore fuel s b).1.disk = s.disk) := by
-  refine ⟨?_, fun hg fuel => addCore_guarded fuel s b hg⟩
-  intro hpre
-  have hmem : s.mem.latest ∈ c := by
-    have := inv.latest
-    cases c with
-    | nil => simp at this
-    | cons z r => simp at this; subst this; exact List.mem_cons_self ..
-  exact (vt.parent b s.mem.latest hT (by rw [hpre]; exact inv.fromT _ hmem)).2
+/-- **head_weight_monotone** (full). The proof follows the re-entry of `addBlockOnChain` after
+    `removeFromCommonAncestor`: the removal stops exactly at the fork point (`removeLoop_safe`), the
+    re-entry inserts the coming block on top of it (`addCore_inserts`), and in the equal-QN branch the local
+    block the model looks up at `forkPoint.height + 1` is the first local block above the fork point
+    (`Linked.child_of`) — so a tie-break taken against any other local block is outside this theorem and
+    shows up as a correspondence difference. -/
+theorem head_weight_monotone (T : Nat → Option Block) : FullStatementHeadWeight T := by
+  intro fuel s b c vt hs inv hT
+  unfold addBlock
+  split
+  · refine ⟨c, ⟨inv.chain, inv.latest, inv.cache, ?_, inv.fromT⟩, WeightGE.refl c⟩
+    intro k f hk
+    have hk' : upd s.mem.future b.pre (some b) k = some f := hk
+    rcases upd_eq_some hk' with ⟨e, hv⟩ | ⟨_, hm⟩
+    · simp at hv; subst hv; exact ⟨e.symm, hT⟩
+    · exact inv.fut k f hm
+  · split
+    · exact ⟨c, inv, WeightGE.refl c⟩
+    · exact (addCore_weight vt fuel s b c hs inv hT).2
+
+/-- The plain reading: the head's cumulative QN never decreases. -/
+theorem head_qn_monotone {T : Nat → Option Block} (vt : ValidTree T) (fuel : Nat) (s : St) (b : Block) (c : List Block)
+    (hs : Safe s) (inv : Inv T s.disk s.mem c) (hT : T b.hash = some b) :
+    s.mem.latest.totalQN ≤ (addBlock (fuel + 2) s b).1.mem.latest.totalQN := by
+  obtain ⟨c', inv', hw⟩ := head_weight_monotone T fuel s b c vt hs inv hT
+  obtain ⟨rest, hc⟩ := head_of_latest inv
+  obtain ⟨rest', hc'⟩ := head_of_latest inv'
+  rcases hw with hsuf | ⟨hd, hd', h1, h2, h3⟩
+  · have hl := inv'.chain.linked
+    rw [hc'] at hl
+    exact qn_le_head vt rest' _ hl (by rw [← hc']; exact inv'.fromT) _
+      (by rw [← hc']; exact suffix_mem hsuf (by rw [hc]; exact List.mem_cons_self ..))
+  · rw [hc] at h1; rw [hc'] at h2
+    simp at h1 h2
+    subst h1; subst h2
+    rcases h3 with h | h
+    · omega
+    · omega
 
 /-! ## transactions of removed and added blocks -/
 
@@ -300,5 +324,40 @@ example : ¬ Guard (genesisState exG) { exB1 with pre := 99 } := by
   rcases h with h | ⟨anc, h, _⟩
   · exact absurd h (by decide)
   · simp [genesisState, upd, exG] at h
+
+
+/-- `head_weight_monotone` applies to the genesis store and a block of the example tree -/
+example : ∃ c', Inv exT (addBlock 2 (genesisState exG) exB1).1.disk (addBlock 2 (genesisState exG) exB1).1.mem c' ∧
+    WeightGE [exG] c' :=
+  head_weight_monotone exT 0 (genesisState exG) exB1 [exG] exT_valid ⟨rfl, rfl⟩ (inv_genesis exT exG rfl rfl) rfl
+
+/-! The weight order discriminates on the tie-break at the fork point (the class of a wrong local block
+    being consulted): local chain `A – L1(pv 900) – L2(pv 100)`, fork tip `C` on `A` with the same cumulative
+    QN. With pv 950 the fork is not lighter, with pv 500 it IS lighter although it beats `L2`. -/
+def wA : Block := { hash := 10, pre := 0, height := 0, totalQN := 1, pv := 0, txs := [], valid := true }
+def wL1 : Block := { hash := 11, pre := 10, height := 1, totalQN := 2, pv := 900, txs := [], valid := true }
+def wL2 : Block := { hash := 12, pre := 11, height := 2, totalQN := 3, pv := 100, txs := [], valid := true }
+def wC (pv : Nat) : Block := { hash := 13, pre := 10, height := 2, totalQN := 3, pv := pv, txs := [], valid := true }
+
+example : WeightGE [wL2, wL1, wA] [wC 950, wA] :=
+  Or.inr ⟨wL2, wC 950, rfl, rfl, Or.inr ⟨rfl, wA, by simp, by simp, wL1, by simp, wC 950, by simp, rfl, rfl, by decide⟩⟩
+
+example : ¬ WeightGE [wL2, wL1, wA] [wC 500, wA] := by
+  intro h
+  rcases h with h | ⟨hd, hd', h1, h2, h3⟩
+  · revert h; decide
+  · simp at h1 h2; subst h1; subst h2
+    rcases h3 with h | ⟨_, fork, hf, hf', ln, hl, nb, hn, e1, e2, e3⟩
+    · revert h; decide
+    · simp at hf hf' hl hn
+      rcases hn with rfl | rfl
+      · rcases hf' with rfl | rfl
+        · revert e2; decide
+        · rcases hl with rfl | rfl | rfl
+          · revert e1; decide
+          · revert e3; decide
+          · revert e1; decide
+      · revert e2
+        rcases hf' with rfl | rfl <;> decide
 
 end Rangers.Props.C05
